@@ -842,7 +842,10 @@ func inPlaceFilterSeen(c *Check, fis []*FuncInfo) {
 							return true
 						})
 						if isParam {
-							owner = "the parameter " + o.Name()
+							// a parameter: the storage is the caller's – an alarm only when a caller in the package hands in a
+							// struct field or a package-level list (a documented "filters in place" helper fed with a look-up
+							// result is the idiom used as intended)
+							owner = paramFedWithSharedStorage(c.P, fi, o)
 							break
 						}
 						for _, d := range defsOfObj(info, body, o) {
@@ -1800,5 +1803,172 @@ func c14BcryptLengthChecked(c *Check, rule string) {
 	})
 	if n == 0 {
 		c.Fail(rule, "sites", token.NoPos, "anchor unresolved: pass_table does not call bcrypt.CompareHashAndPassword")
+	}
+}
+
+// paramFedWithSharedStorage: some call of fi in its package passes a struct field or a package-level variable for
+// parameter pv; the description of that argument, or "".
+func paramFedWithSharedStorage(p *Prog, fi *FuncInfo, pv types.Object) string {
+	sig, _ := fi.Obj.Type().(*types.Signature)
+	if sig == nil {
+		return ""
+	}
+	idx := -1
+	for i := 0; i < sig.Params().Len(); i++ {
+		if sig.Params().At(i) == pv {
+			idx = i
+		}
+	}
+	if idx < 0 {
+		return "" // the parameter of a function literal: read in place where it is only called, otherwise not followed
+	}
+	res := ""
+	info := fi.Pkg.TypesInfo
+	p.AllFuncs([]*packagesPkg{fi.Pkg}, func(cf *FuncInfo) {
+		if cf.Decl.Body == nil || strings.HasSuffix(p.Fset.Position(cf.Decl.Pos()).Filename, "_test.go") {
+			return
+		}
+		ast.Inspect(cf.Decl.Body, func(x ast.Node) bool {
+			call, ok := x.(*ast.CallExpr)
+			if !ok || callee(info, call) != fi.Obj || idx >= len(call.Args) {
+				return true
+			}
+			arg := ast.Unparen(call.Args[idx])
+			if fv := fieldOf(info, arg); fv != nil {
+				res = "the struct field " + fv.Name() + " (handed in by " + cf.Name() + ")"
+			} else if v, isVar := objOf(info, arg).(*types.Var); isVar && v.Pkg() != nil && v.Parent() == v.Pkg().Scope() {
+				res = "the package-level list " + v.Name() + " (handed in by " + cf.Name() + ")"
+			}
+			return true
+		})
+	})
+	return res
+}
+
+// ---- C12.R22: every attempt that Close waits for says when it is over.
+// Queue.Close returns when deliveryWg is back at zero. dispatch counts an attempt in (deliveryWg.Add) and starts its
+// goroutine; the goroutine counts it out in a deferred function, so that a panicking attempt is counted out as well. An
+// Add without the goroutine, or a goroutine that can end without Done, leaves the counter above zero: shutdown never
+// terminates. (From the mutant run of round 11: the Done could be deleted without any rule noticing – E5 does not look
+// into function literals.)
+func c12AttemptsCountedOut(c *Check, rule string) {
+	c.Rule(rule, "target.queue: after every Add on the wait group of the attempts the function goes on to start a goroutine, and that goroutine calls Done on the same wait group on every way out (in a deferred function registered on every path, or directly) – Queue.Close, which waits for the group, terminates", 1)
+	p := c.P
+	pk := p.Pkg(queueRel)
+	if pk == nil {
+		c.Fail(rule, "package", token.NoPos, "anchor unresolved")
+		return
+	}
+	info := pk.TypesInfo
+	wgCall := func(call *ast.CallExpr, name string) *types.Var {
+		if methodName(call) != name {
+			return nil
+		}
+		fn := callee(info, call)
+		if fn == nil || fn.Pkg() == nil || fn.Pkg().Path() != "sync" {
+			return nil
+		}
+		if nt, ok := derefNamed(info.TypeOf(callRecv(call))); !ok || nt.Obj().Name() != "WaitGroup" {
+			return nil
+		}
+		return fieldOf(info, callRecv(call))
+	}
+	// does the body call Done on wg on every way out?
+	countsOut := func(fiName string, lit *ast.FuncLit, wg *types.Var) (string, bool) {
+		fl := p.FlowOf(info, lit.Body, fiName+"$attempt")
+		var done []Pt
+		for _, pt := range fl.Points() {
+			n := pt.Node()
+			if n == nil {
+				continue
+			}
+			if d, isDefer := n.(*ast.DeferStmt); isDefer {
+				hit := wgCall(d.Call, "Done") == wg
+				if dl, isLit := d.Call.Fun.(*ast.FuncLit); isLit {
+					// unconditional statements of the deferred function
+					for _, st := range dl.Body.List {
+						if es, isES := st.(*ast.ExprStmt); isES {
+							if cc, isCall := es.X.(*ast.CallExpr); isCall && wgCall(cc, "Done") == wg {
+								hit = true
+							}
+						}
+					}
+				}
+				if hit {
+					done = append(done, pt)
+				}
+				continue
+			}
+			if !directlyIn(lit.Body, n) {
+				continue
+			}
+			for _, call := range callsAt(n) {
+				if wgCall(call, "Done") == wg {
+					done = append(done, pt)
+				}
+			}
+		}
+		if len(done) == 0 {
+			return "the goroutine never calls Done", false
+		}
+		path, found := fl.Reach(Query{From: []Pt{fl.Entry()}, Inclusive: true, Target: fl.IsExitPt, Avoid: isPt(done)})
+		if found {
+			return "the goroutine can end without Done (" + fl.Describe(path) + ")", false
+		}
+		return "", true
+	}
+	n := 0
+	p.AllFuncs([]*packagesPkg{pk}, func(fi *FuncInfo) {
+		if fi.Decl.Body == nil || strings.HasSuffix(p.Fset.Position(fi.Decl.Pos()).Filename, "_test.go") {
+			return
+		}
+		funcBodies(p, fi, func(name string, body *ast.BlockStmt, fl *Flow) {
+			for _, pt := range fl.Points() {
+				if pt.Node() == nil || !directlyIn(body, pt.Node()) {
+					continue
+				}
+				for _, call := range callsAt(pt.Node()) {
+					wg := wgCall(call, "Add")
+					if wg == nil {
+						continue
+					}
+					n++
+					c.SawFunc(fi.Name())
+					key := name + ":" + wg.Name() + ".Add" + itoa(n)
+					// goroutines started in this body that count the attempt out
+					var starts []Pt
+					why := "no goroutine is started after the Add"
+					for _, q := range fl.Points() {
+						g, isGo := q.Node().(*ast.GoStmt)
+						if !isGo {
+							continue
+						}
+						lit, isLit := g.Call.Fun.(*ast.FuncLit)
+						if !isLit {
+							why = "the goroutine started after the Add is not a function literal (not followed)"
+							continue
+						}
+						if w, ok := countsOut(name, lit, wg); ok {
+							starts = append(starts, q)
+						} else {
+							why = w
+						}
+					}
+					msg := ""
+					if len(starts) == 0 {
+						msg = why
+					} else if path, found := fl.Reach(Query{From: []Pt{pt}, Target: fl.IsExitPt, Avoid: isPt(starts)}); found {
+						msg = "after the Add the function can return without starting the goroutine that counts the attempt out (" + fl.Describe(path) + ")"
+					}
+					if msg != "" {
+						msg += ": the wait group of the attempts never returns to zero and Queue.Close – which waits for it after stopping the scheduler – never returns"
+					}
+					c.Hold(rule, key, call.Pos(), msg == "", msg)
+				}
+			}
+		})
+	})
+	if n == 0 {
+		c.Fail(rule, "sites", token.NoPos, "anchor unresolved: the queue never adds to a wait group")
 	}
 }
